@@ -56,7 +56,9 @@ def run(chk):
         from ..engines import e2_state as _e2
         _eng = _e2.E2(db, chk, cfg, ["ClipperBase"])
         _f = db.one("AddPaths_")
-        _lp = _e2.find_loops(_f, lambda l: "paths" in _e2.loop_header_text(l))
+        # (the loop over the paths that builds the vertices: the one that itself contains a loop over the points of a path)
+        _lp = _e2.find_loops(_f, lambda l: "paths" in _e2.loop_header_text(l) and any(
+            y is not l and y.get("kind") in ("CXXForRangeStmt", "ForStmt", "WhileStmt") for y in __import__("vlib.astq", fromlist=["walk"]).walk(l)))
         if len(_lp) != 1:
             from ..extract import AnalysisBroken as _AB
             raise _AB("path loop of AddPaths_ not found")
